@@ -3,6 +3,7 @@ package main
 // Executor-level values, the symbolic state, and conversion between Go-typed values and SMT terms.
 
 import (
+	"math/big"
 	"fmt"
 	"go/types"
 	"sort"
@@ -777,10 +778,13 @@ func (e *Engine) rangeAssume(st *State, x T, t types.Type) {
 func intRange(x T, t types.Type) T {
 	ts := typeString(t)
 	switch ts {
-	case tySdkInt, tySdkDec, tyTime, tyDuration:
+	case tySdkInt:
+		// type invariant of sdk.Int: |v| < 2^256 (every constructor and arithmetic method enforces it)
+		return And(Lt(x, BigLit(two256v)), Gt(x, BigLit(new(big.Int).Neg(two256v))))
+	case tySdkDec, tyTime, tyDuration:
 		return TTrue
 	case tySdkUint:
-		return Ge(x, IntLit(0))
+		return And(Ge(x, IntLit(0)), Lt(x, BigLit(two256v)))
 	}
 	b, ok := t.Underlying().(*types.Basic)
 	if !ok || b.Info()&types.IsInteger == 0 {
@@ -970,3 +974,5 @@ func byteArrString(x *ArrV) T {
 	flush()
 	return Concat(parts...)
 }
+
+var two256v = new(big.Int).Lsh(big.NewInt(1), 256)
